@@ -122,7 +122,7 @@ var awkwardSources = []string{
 	`name=" \(x\)` + "\n", `\$_(?:GET|POST)` + "\n", `\$1x` + "\n" + `a${b}` + "\n", "trailing blank \n", `href=" \(` + "\n",
 	"foo\nbar\n", "ls\ncat\n", `a\$b` + "\n", `\"quoted\"` + "\n" + "x\n", `"@rx foo` + "\n", `a "@rx b` + "\n" + "c\n", "a b\n", `a\\b` + "\n", `\x5cd` + "\n",
 	`" \d` + "\n", `[\"']x` + "\n", `^\s*x$` + "\n", "##!+ i\nselect\nunion\n", "##!^ \\b\nfoo\nfob\n", `a" \` + "\n" + `b\n`, "x\\ \n", "uid:932100x\n", "SecRule\nSecAction\n",
-	`"!@rx x` + "\n", "##!> assemble\na\nb\n##!=>\nc\n##!<\n", `\.(?:ht|js)` + "\n", "é\n", `end" \\` + "\n",
+	"(?:lisa|maggie\n", "fine\n##!> assemble\n  open\n", "ok\n##!> frobnicate\n", `"!@rx x` + "\n", "##!> assemble\na\nb\n##!=>\nc\n##!<\n", `\.(?:ht|js)` + "\n", "é\n", `end" \\` + "\n",
 }
 
 func rulesGen(r *rand.Rand, lane string) *rulesCase {
